@@ -104,7 +104,9 @@ Qed.
 (* a response as it can come out of Message.decode: size exponents are 3-bit fields *)
 Definition bt_wf (b : option bt) : bool := match b with Some (n, _, s) => (0 <=? n) && (0 <=? s) && (s <=? 7) | None => true end.
 Definition resp_wf (r : response) : bool := bt_wf (rs_block1 r) && bt_wf (rs_block2 r).
-Definition req_wf (r : request) : bool := bt_wf (rq_block1 r) && bt_wf (rq_block2 r).
+(* a request of a client on a datagram transport: regular size exponents only *)
+Definition bt_wf6 (b : option bt) : bool := match b with Some (n, _, s) => (0 <=? n) && (0 <=? s) && (s <=? 6) | None => true end.
+Definition req_wf (r : request) : bool := bt_wf6 (rq_block1 r) && bt_wf6 (rq_block2 r).
 
 Lemma block1_react_continue rq resp cursor size_exp n m szx c2 e2 :
   0 <= size_exp <= 6 -> rq_block1 rq = Some (n, m, szx) -> resp_wf resp = true ->
@@ -189,7 +191,7 @@ Section AnyServer.
   Variable serve_wf : forall s rq s' r, req_wf rq = true -> serve s rq = (s', SResp r) -> resp_wf r = true.
 
   Lemma block1_loop_chain cfg fuel : forall s cursor size_exp mbse s' tr o,
-    bt_wf (c_block2 cfg) = true -> 0 <= size_exp <= 6 -> 0 <= cursor -> cursor * bsize size_exp < blen (c_body cfg) ->
+    bt_wf6 (c_block2 cfg) = true -> 0 <= size_exp <= 6 -> 0 <= cursor -> cursor * bsize size_exp < blen (c_body cfg) ->
     blen (c_body cfg) > fragmentation_threshold (c_mps cfg) size_exp ->
     block1_loop serve fuel s cfg cursor size_exp mbse = (s', tr, o) ->
     b1_chain (c_body cfg) (cursor * bsize size_exp) size_exp tr.
@@ -212,7 +214,7 @@ Section AnyServer.
       destruct (serve s rq) as [s1 r] eqn:Hserve. destruct r as [resp|].
       2:{ intros H; inv H. apply Hhead. destruct more; [exact I|constructor]. }
       assert (Hrqwf : req_wf rq = true).
-      { unfold req_wf. cbn [rq rq_block1 rq_block2 bt_wf]. rewrite Hb2. lia. }
+      { unfold req_wf. cbn [rq rq_block1 rq_block2 bt_wf6]. rewrite Hb2. lia. }
       pose proof (serve_wf _ _ _ _ Hrqwf Hserve) as Hwf.
       destruct (block1_react rq resp cursor size_exp) as [e|c2 e2|] eqn:Hreact.
       + intros H; inv H. apply Hhead. destruct more; [exact I|constructor].
@@ -251,7 +253,7 @@ Section AnyServer2.
     end.
 
   Lemma run_wire_ok cfg fuel s s' tr o :
-    0 <= c_mbse cfg <= 6 -> 0 <= c_mps cfg -> bt_wf (c_block2 cfg) = true ->
+    0 <= c_mbse cfg <= 6 -> 0 <= c_mps cfg -> bt_wf6 (c_block2 cfg) = true ->
     run serve fuel s cfg = (s', tr, o) -> wire_ok cfg tr.
   Proof.
     intros Hm Hp Hb2. unfold run, wire_ok. intros Hrun. destruct tr as [|rq rest]; [exact I|].
@@ -288,6 +290,17 @@ Section AnyServer2.
     rewrite Hr. reflexivity.
   Qed.
 
+  (* OBSERVATION (not a violation of C05: the request ends loudly): a non-zero Observe option on the acknowledgement of a non-final block
+     ends the request with AttributeError — protocol.py:986 calls `blockrequest.observe.cancel()`, the attribute is `observation` *)
+  Lemma block1_early_observe_lemma cfg f s cursor size_exp mbse rq s1 resp cb b1 :
+    block1_request cfg cursor size_exp = Ok rq -> serve s rq = (s1, SResp resp) ->
+    rq_block1 rq = Some cb -> rs_block1 resp = Some b1 -> bt_num b1 = bt_num cb -> bt_more cb = true -> rs_observe resp = true ->
+    block1_loop serve (Datatypes.S f) s cfg cursor size_exp mbse = (s1, [rq], Err AttributeError).
+  Proof.
+    clear serve_wf. intros Hrq Hs Hcb Hb1 Hn Hm Ho. cbn [block1_loop]. rewrite Hrq, Hs.
+    unfold block1_react. rewrite Hb1, Hcb, Hn, Z.eqb_refl. cbn [negb]. destruct (reduce_size _ _ _ _). rewrite Hm, Ho. reflexivity.
+  Qed.
+
   (* a transport failure of any sub-request ends the request with that error *)
   Lemma block1_transport_failure cfg f s cursor size_exp mbse rq s1 :
     block1_request cfg cursor size_exp = Ok rq -> serve s rq = (s1, SFail) ->
@@ -300,7 +313,7 @@ End AnyServer2.
 
 Definition appended (acc x : response) (b : bt) : response :=
   {| rs_code := rs_code acc; rs_block1 := rs_block1 acc; rs_block2 := Some b; rs_etag := rs_etag acc;
-     rs_payload := rs_payload acc ++ rs_payload x; rs_maxexp := rs_maxexp acc |}.
+     rs_payload := rs_payload acc ++ rs_payload x; rs_maxexp := rs_maxexp acc; rs_observe := rs_observe acc |}.
 
 Lemma append_ok acc x n m szx acc' :
   rs_block2 x = Some (n, m, szx) -> append_response_block acc x = Ok acc' ->
@@ -489,7 +502,15 @@ Record honest_cfg (scf : scfg) (e : option Z) (rep : list Z) : Prop := {
   h_reps : s_reps scf = [(e, rep)];
   h_rep_at : s_rep_at scf = [];
   h_pol1 : Forall (fun x => 0 <= x) (s_policy1 scf);
-  h_pol2 : Forall (fun x => 0 <= x) (s_policy2 scf) }.
+  h_pol2 : Forall (fun x => 0 <= x) (s_policy2 scf);
+  h_bert : s_bert scf = 0 }.
+
+Lemma honest_eq_regular scf st rq : s_bert scf = 0 -> is_bert_request rq = false -> honest scf st rq = honest_regular scf st rq.
+Proof. intros Hb Hr. unfold honest. rewrite Hb, Hr. reflexivity. Qed.
+Lemma req_wf_not_bert rq : req_wf rq = true -> is_bert_request rq = false.
+Proof.
+  unfold req_wf, is_bert_request, szx_is_7, bt_wf6. destruct (rq_block1 rq) as [[[n m] s]|]; destruct (rq_block2 rq) as [[[n2 m2] s2]|]; lia.
+Qed.
 
 Section Ref.
   Variable scf : scfg. Variable e : option Z. Variable rep : list Z.
@@ -502,7 +523,7 @@ Section Ref.
     let s3 := Z.min s2 (pol (s_policy2 scf) k 6) in let off := n2 * bsize s2 in
     slice_response scf k code b1 (Some (n2, m2, s2)) =
       {| rs_code := code; rs_block1 := b1; rs_block2 := Some (off / bsize s3, off + bsize s3 <? blen rep, s3);
-         rs_etag := e; rs_payload := bslice rep off (off + bsize s3); rs_maxexp := 6 |}.
+         rs_etag := e; rs_payload := bslice rep off (off + bsize s3); rs_maxexp := 6; rs_observe := false |}.
   Proof.
     intros Hs Hn Hoff s3 off. unfold slice_response. rewrite current_rep.
     replace (Z.min s2 6) with s2 by lia. fold (bsize s2). fold off. fold s3. fold (bsize s3).
@@ -532,11 +553,12 @@ Section Ref.
       + cbn [Z.add]. intros ->. reflexivity.
   Qed.
 
-  Lemma serve_ref_followup st rq n2 m2 s2 : rq_block1 rq = None -> rq_block2 rq = Some (n2, m2, s2) -> 0 < n2 ->
+  Lemma serve_ref_followup st rq n2 m2 s2 : rq_block1 rq = None -> rq_block2 rq = Some (n2, m2, s2) -> 0 < n2 -> s2 <> 7 ->
     serve_ref scf st rq = ({| sv_asm := sv_asm st; sv_bodies := sv_bodies st; sv_step := sv_step st + 1 |},
                            SResp (slice_response scf (sv_step st) CONTENT None (Some (n2, m2, s2)))).
   Proof.
-    intros H1 H2 Hn. unfold serve_ref, honest. rewrite H1, H2. replace (0 <? n2) with true by lia. rewrite (h_mis _ _ _ Hh). reflexivity.
+    intros H1 H2 Hn Hs7. unfold serve_ref. rewrite honest_eq_regular; [|apply (h_bert _ _ _ Hh)|unfold is_bert_request, szx_is_7; rewrite H1, H2; lia].
+    unfold honest_regular. rewrite H1, H2. replace (0 <? n2) with true by lia. rewrite (h_mis _ _ _ Hh). reflexivity.
   Qed.
 
   (* Block2 completion against the reference server: the whole representation, nothing else *)
@@ -608,13 +630,17 @@ Proof.
     cbn [bt_wf]. change (Z.min 6 6) with 6. lia.
 Qed.
 
-Lemma serve_ref_wf scf : s_mis scf = None -> Forall (fun x => 0 <= x) (s_policy1 scf) -> Forall (fun x => 0 <= x) (s_policy2 scf) ->
+Lemma serve_ref_wf scf : s_mis scf = None -> Forall (fun x => 0 <= x) (s_policy1 scf) -> Forall (fun x => 0 <= x) (s_policy2 scf) -> s_bert scf = 0 ->
   forall st rq st' r, req_wf rq = true -> serve_ref scf st rq = (st', SResp r) -> resp_wf r = true.
 Proof.
-  intros Hmis Hp1 Hp2 st rq st' r Hwf. unfold serve_ref. rewrite Hmis. destruct (honest scf st rq) as [st1 r1] eqn:Hh. intros H; inv H.
+  intros Hmis Hp1 Hp2 Hbert st rq st' r Hwf. unfold serve_ref. rewrite Hmis. rewrite honest_eq_regular by (assumption || apply req_wf_not_bert; assumption).
+  destruct (honest_regular scf st rq) as [st1 r1] eqn:Hh. intros H; inv H.
   unfold req_wf in Hwf. apply andb_prop in Hwf as [Hw1 Hw2].
+  assert (Hw1' : bt_wf (rq_block1 rq) = true) by (unfold bt_wf, bt_wf6 in *; destruct (rq_block1 rq) as [[[? ?] ?]|]; lia).
+  assert (Hw2' : bt_wf (rq_block2 rq) = true) by (unfold bt_wf, bt_wf6 in *; destruct (rq_block2 rq) as [[[? ?] ?]|]; lia).
+  clear Hw1 Hw2. rename Hw1' into Hw1. rename Hw2' into Hw2.
   assert (Hpol : 0 <= pol (s_policy1 scf) (sv_step st) 6) by (apply pol_nonneg; [assumption|lia]).
-  unfold honest in Hh. destruct (rq_block1 rq) as [[[n m] szx]|]; cbn [bt_wf] in Hw1.
+  unfold honest_regular in Hh. destruct (rq_block1 rq) as [[[n m] szx]|]; cbn [bt_wf] in Hw1.
   - destruct (negb _); [inv Hh; reflexivity|]. destruct (_ || _); [inv Hh; reflexivity|].
     destruct m; inv Hh.
     + unfold resp_wf. cbn [rs_block1 rs_block2 bt_wf]. lia.
@@ -677,16 +703,17 @@ Section Ref2.
 
   Lemma serve_ref_block1 st n (m : bool) szx b2 s1 pl :
     let asm := if n =? 0 then (@nil Z) else sv_asm st in
-    n * bsize szx = blen asm -> (if m then blen pl =? bsize szx else blen pl <=? bsize szx) = true ->
+    n * bsize szx = blen asm -> (if m then blen pl =? bsize szx else blen pl <=? bsize szx) = true -> szx <> 7 -> szx_is_7 b2 = false ->
     let k := sv_step st in let aszx := Z.min szx (pol (s_policy1 scf) k 6) in
     srv st {| rq_block1 := Some (n, m, szx); rq_block2 := b2; rq_size1 := s1; rq_payload := pl |} =
       if m then ({| sv_asm := asm ++ pl; sv_bodies := sv_bodies st; sv_step := k + 1 |},
                  SResp {| rs_code := if s_atomic scf then CONTINUE else CHANGED; rs_block1 := Some (n, s_atomic scf, aszx); rs_block2 := None;
-                          rs_etag := None; rs_payload := []; rs_maxexp := 6 |})
+                          rs_etag := None; rs_payload := []; rs_maxexp := 6; rs_observe := false |})
       else ({| sv_asm := []; sv_bodies := (asm ++ pl) :: sv_bodies st; sv_step := k + 1 |},
             SResp (slice_response scf k CHANGED (Some (n, false, aszx)) b2)).
   Proof.
-    intros asm Hoff Hlen k aszx. unfold srv, serve_ref, honest. cbn [rq_block1 rq_payload rq_block2]. fold (bsize szx). fold asm. fold k.
+    intros asm Hoff Hlen Hs7 Hb7 k aszx. unfold srv, serve_ref. rewrite honest_eq_regular; [|apply (h_bert _ _ _ Hh)|unfold is_bert_request; cbn [rq_block1 rq_block2 szx_is_7]; rewrite Hb7; lia].
+    unfold honest_regular. cbn [rq_block1 rq_payload rq_block2]. fold (bsize szx). fold asm. fold k.
     rewrite Hoff, Z.eqb_refl. cbn [negb]. rewrite (h_mis _ _ _ Hh).
     destruct m; cbn [negb andb orb].
     - rewrite Hlen. cbn [negb]. reflexivity.
@@ -707,6 +734,7 @@ Section Ref2.
     pose proof (bsize_pos size_exp ltac:(lia)) as Hsz.
     destruct (extract_blocks_partition_lemma body size_exp (c_mps cfg) cursor Hs Hc) as [_ Hok].
     destruct (Hok Hoff) as (pl & more & Hex & Hcat & Hmore & Hfin). rewrite Hex. cbn [bind].
+    assert (Hcb7 : szx_is_7 (c_block2 cfg) = false) by (unfold szx_is_7; destruct Hb2 as [->|(m2 & s2 & -> & Hs2)]; [reflexivity|lia]).
     set (asm := if cursor =? 0 then [] else sv_asm st).
     assert (Hasm' : asm = bto body (cursor * bsize size_exp)).
     { subst asm. destruct (cursor =? 0) eqn:E0; [replace cursor with 0 by lia; reflexivity|apply Hasm; lia]. }
@@ -716,14 +744,14 @@ Section Ref2.
     replace (if mbse <? 6 then mbse else 6) with mbse by (destruct (mbse <? 6) eqn:E; lia).
     destruct more.
     - destruct (Hmore eq_refl) as [Hpl Hlt].
-      rewrite (serve_ref_block1 st cursor true size_exp (c_block2 cfg) _ pl Hasmlen ltac:(lia)). fold asm k aszx.
+      rewrite (serve_ref_block1 st cursor true size_exp (c_block2 cfg) _ pl Hasmlen ltac:(lia) ltac:(lia) Hcb7). fold asm k aszx.
       cbn [rs_maxexp]. replace (if mbse <? 6 then mbse else 6) with mbse by (destruct (mbse <? 6) eqn:E; lia).
       match goal with |- context [block1_react ?rq ?resp cursor size_exp] =>
         assert (Hreact : exists c2 e2, block1_react rq resp cursor size_exp = B1Continue c2 e2);
         [|destruct Hreact as (c2 & e2 & Hreact);
           destruct (block1_react_continue rq resp cursor size_exp cursor true size_exp c2 e2 Hs eq_refl) as (_ & He2 & Hc2);
           [unfold resp_wf; cbn [rs_block1 rs_block2 bt_wf]; subst aszx; lia|exact Hreact|rewrite Hreact] ] end.
-      { unfold block1_react. cbn [rs_block1 rq_block1 bt_num bt_more bt_szx fst snd rs_code]. rewrite Z.eqb_refl. cbn [negb].
+      { unfold block1_react. cbn [rs_block1 rq_block1 bt_num bt_more bt_szx fst snd rs_code rs_observe]. rewrite Z.eqb_refl. cbn [negb].
         destruct (reduce_size _ _ _ _) as [c2 e2]. destruct (s_atomic scf); [eauto|]. cbn. eauto. }
       pose proof (bsize_pos e2 ltac:(lia)) as Hsz2. assert (Hc2' : 1 <= c2) by nia.
       match goal with |- context [block1_loop srv f ?s1 cfg c2 e2 mbse] =>
@@ -736,7 +764,7 @@ Section Ref2.
                                       rq_size1 := if cursor =? 0 then Some (blen body) else None; rq_payload := pl |} :: tr), r.
         cbn [sv_bodies] in H1. repeat split; assumption.
     - destruct (Hfin eq_refl) as [Hpl Hend].
-      rewrite (serve_ref_block1 st cursor false size_exp (c_block2 cfg) _ pl Hasmlen ltac:(lia)). fold asm k aszx.
+      rewrite (serve_ref_block1 st cursor false size_exp (c_block2 cfg) _ pl Hasmlen ltac:(lia) ltac:(lia) Hcb7). fold asm k aszx.
       pose proof (slice_response_first scf e rep Hh k CHANGED (Some (cursor, false, aszx)) (c_block2 cfg) req_szx first_req) as Hfirst.
       cbv zeta in Hfirst. destruct Hfirst as (Hcode & Hblk1 & _ & _ & Hmax & _).
       rewrite Hmax. replace (if mbse <? 6 then mbse else 6) with mbse by (destruct (mbse <? 6) eqn:E; lia).
@@ -771,7 +799,8 @@ Section Ref2.
         set (rq0 := {| rq_block1 := None; rq_block2 := c_block2 cfg; rq_size1 := None; rq_payload := body |}).
         assert (Hserve : srv sstate0 rq0 = ({| sv_asm := []; sv_bodies := [body]; sv_step := 1 |},
                                            SResp (slice_response scf 0 CONTENT None (c_block2 cfg)))).
-        { unfold srv, serve_ref, honest. cbn [rq0 rq_block1 rq_block2 rq_payload sstate0 sv_step sv_bodies sv_asm]. rewrite (h_mis _ _ _ Hh).
+        { unfold srv, serve_ref. rewrite honest_eq_regular; [|apply (h_bert _ _ _ Hh)|unfold is_bert_request, szx_is_7; cbn [rq0 rq_block1 rq_block2]; destruct Hb2 as [->|(m2 & s2 & -> & Hs2)]; [reflexivity|lia]].
+          unfold honest_regular. cbn [rq0 rq_block1 rq_block2 rq_payload sstate0 sv_step sv_bodies sv_asm]. rewrite (h_mis _ _ _ Hh).
           destruct Hb2 as [->|(m2 & s2 & -> & _)]; reflexivity. }
         rewrite Hserve.
         pose proof (slice_response_first scf e rep Hh 0 CONTENT None (c_block2 cfg) req_szx first_req) as Hfirst.
@@ -785,8 +814,8 @@ Section Ref2.
     destruct H as (H1 & H2 & H3 & H4 & H5). repeat split; try assumption.
     eapply (run_wire_ok srv) with (fuel := fuel) (s := sstate0); try eassumption.
     - (* the reference server answers well-formed requests with well-formed responses *)
-      apply serve_ref_wf; [apply (h_mis _ _ _ Hh)|apply (h_pol1 _ _ _ Hh)|apply (h_pol2 _ _ _ Hh)].
-    - unfold bt_wf. destruct Hb2 as [->|(m2 & s2 & -> & Hs2)]; [reflexivity|lia].
+      apply serve_ref_wf; [apply (h_mis _ _ _ Hh)|apply (h_pol1 _ _ _ Hh)|apply (h_pol2 _ _ _ Hh)|apply (h_bert _ _ _ Hh)].
+    - unfold bt_wf6. destruct Hb2 as [->|(m2 & s2 & -> & Hs2)]; [reflexivity|lia].
   Qed.
 End Ref2.
 
